@@ -295,6 +295,59 @@ def _(old_text, start_num, num_chars, new_text, result):
     return result is VALUE or len(result) == len(old_text)
 
 
+c_find = Contract('formulas.functions.text:xfind', dict(find_text=Txt, within_text=Txt, start_num=OneOf(IntT(-3, 10 ** 6), ConstT(None))),
+                  'C12', name='xfind', use=[])
+CONTRACTS.append(c_find)
+
+
+@c_find.ensures('position-of-the-first-occurrence-at-or-after-the-start-else-VALUE', 'P')
+def _(find_text, within_text, start_num, result):
+    s = _n(start_num)
+    if s < 1:
+        return result is VALUE
+    k = within_text.find(find_text, s - 1)            # the mathematical "first occurrence from offset s-1" (SMT str.indexof)
+    if k < 0:
+        return result is VALUE
+    # 1-based position, not before the start, and the text really is there
+    return result == k + 1 and result >= s and within_text[k:k + len(find_text)] == find_text
+
+
+@c_find.canary('canary:always-found')
+def _(find_text, within_text, start_num, result):
+    return result is not VALUE
+
+
+# ------------------------------------------------------------------------------------ ISODD / ISEVEN
+def _parity_contract(odd):
+    c = Contract('formulas.functions.info:xiseven_odd', dict(number=OneOf(RealT(), IntT(-10 ** 9, 10 ** 9), BoolT(), ErrT(), ConstT(sh.EMPTY)),
+                                                              odd=ConstT(odd)),
+                 'C12', name='xiseven_odd[%s]' % ('ISODD' if odd else 'ISEVEN'), use=[], float_mode='real')
+    CONTRACTS.append(c)
+
+    @c.ensures('parity-of-the-number-truncated-toward-zero', 'P')
+    def _(number, result):
+        from formulas.tokens.operand import XlError
+        if isinstance(number, bool):
+            return result is VALUE
+        if isinstance(number, XlError):
+            return result is number
+        x = 0 if number is sh.EMPTY else number
+        t = math.floor(x) if x >= 0 else -math.floor(-x)          # truncation toward zero
+        return result == ((t % 2 == 1) if odd else (t % 2 == 0))
+
+    @c.canary('canary:rounds-to-nearest')
+    def _(number, result):
+        from formulas.tokens.operand import XlError
+        if isinstance(number, (bool, XlError)) or number is sh.EMPTY:
+            return True
+        return result == ((math.floor(number + 0.5) % 2 == 1) if odd else (math.floor(number + 0.5) % 2 == 0))
+    return c
+
+
+_parity_contract(True)
+_parity_contract(False)
+
+
 # ====================================================================================
 # bounded stage: listed functions against spec functions over pools
 def _F():
@@ -946,11 +999,15 @@ PROPERTIES = {
     'C12': dict(
         level='other',
         explanation=(
-            'Proved (floats as reals, declared): EVEN / ODD / MOD / CEILING kernels and the IF / IFS selection logic against their Excel '
-            'definitions for all arguments. Bounded: mathematical, text and aggregation functions through the real FUNCTIONS entries against '
-            'spec functions written from the Excel definitions (decimal rounding with the decimal module).'),
-        assumptions=['machine floats treated as mathematical reals in the proved kernels (float-exact claims are bounded only)'],
-        not_proved=['decimal rounding (ROUND family), aggregations, text functions: bounded stage only'],
+            'Proved on the real kernels for all arguments (floats as reals, declared): EVEN / ODD / MOD / CEILING guards; the selection logic of '
+            'IF / IFS / SWITCH / IFNA; ISODD / ISEVEN (parity of the truncated number, #VALUE! for logicals); the text kernels LEFT / RIGHT / MID / '
+            'REPLACE / FIND over arbitrary text and positions (SMT string theory; s[::-1] by abstract reversal). Bounded: mathematical, text, '
+            'aggregation, logical, information and counting functions through the real FUNCTIONS entries against spec functions written from '
+            'the Excel definitions (decimal rounding with the decimal module).'),
+        assumptions=['machine floats treated as mathematical reals in the proved kernels (float-exact claims are bounded only)',
+                     'text arguments of the proved text kernels are str (numbers reach them through _str, bounded only)'],
+        not_proved=['decimal rounding (ROUND family), aggregations (numpy), SUBSTITUTE / TRIM / SEARCH / CONCAT / TEXTJOIN (split / join / lower), '
+                    'the IS... family (numpy element loop): bounded stage only'],
         bounded_rule='(function, arguments) cases; distinct = distinct cases',
     ),
 }
